@@ -109,6 +109,7 @@ def obsStr : Obs → String
   | .signal c g => s!"signal:c{c}:{g}" | .kill c => s!"kill:c{c}" | .reaped c st => s!"reaped:c{c}:{st}"
   | .dropped c => s!"dropped:c{c}" | .func id cur prev => s!"run:{id}:{cur}:{prev}"
   | .ticket w => s!"tk:{w}" | .ended => "ended" | .panicked => "panicked"
+  | .killFail c => s!"killfail:c{c}" | .signalFail c g => s!"signalfail:c{c}:{g}" | .waitFail c => s!"waitfail:c{c}"
 
 /-- canonical trace: entries sorted within one timestamp (waiter wake-up order is scheduler detail) -/
 def traceStr (x : Sim) : String :=
